@@ -272,6 +272,9 @@ func sigma() {
 	buf := make([]byte, 0, L)
 	var rec func()
 	rec = func() {
+		if vrt.Stop() {
+			return
+		}
 		checkDatagram(r, buf)
 		if len(buf) == L {
 			return
